@@ -254,6 +254,9 @@ func TestC18Grid(t *testing.T) {
 type podSpec struct {
 	Ordinal int    `json:"ordinal"`
 	IP      string `json:"ip"`
+	// Terminating: the pod has a deletion timestamp (evicted, drained, deleted by hand); it is still the shard of
+	// its ordinal until the StatefulSet controller has replaced it
+	Terminating bool `json:"terminating,omitempty"`
 }
 
 type listCase struct {
@@ -263,6 +266,8 @@ type listCase struct {
 	Rolling  bool      `json:"rolling"` // one of them is mid rolling update
 	// RollBack: that roll-out is being undone (update revision == current revision again, updatedReplicas < replicas)
 	RollBack bool `json:"rollBack,omitempty"`
+	// OnDelete: the StatefulSet that is being updated uses the OnDelete update strategy (pods are replaced by hand)
+	OnDelete bool `json:"onDelete,omitempty"`
 }
 
 func runList(c *listCase) []vkit.Violation {
@@ -280,6 +285,9 @@ func runList(c *listCase) []vkit.Violation {
 		set.Status.CurrentRevision, set.Status.UpdateRevision = set.Name+"-7d9f", set.Name+"-7d9f"
 		if upd == 1 && !c.RollBack {
 			set.Status.UpdateRevision = set.Name + "-5c4b"
+		}
+		if upd == 1 && c.OnDelete {
+			set.Spec.UpdateStrategy.Type = appsv1.OnDeleteStatefulSetStrategyType
 		}
 		objs = append(objs, set)
 	}
@@ -299,7 +307,14 @@ func runList(c *listCase) []vkit.Violation {
 		l := &corev1.PodList{}
 		if sel == "sts=set" {
 			for _, p := range c.Pods {
-				l.Items = append(l.Items, mkPod("set", p.Ordinal, p.IP))
+				pod := mkPod("set", p.Ordinal, p.IP)
+				if p.Terminating {
+					now := metav1.Now()
+					pod.DeletionTimestamp = &now
+					grace := int64(30)
+					pod.DeletionGracePeriodSeconds = &grace
+				}
+				l.Items = append(l.Items, pod)
 			}
 		} else if strings.HasPrefix(sel, "sts=zrep") {
 			name := strings.TrimPrefix(sel, "sts=")
@@ -403,10 +418,11 @@ func TestC18List(t *testing.T) {
 			if rapid.IntRange(0, 3).Draw(t, fmt.Sprintf("unready%d", i)) == 0 {
 				ip = ""
 			}
-			c.Pods = append(c.Pods, podSpec{Ordinal: o, IP: ip})
+			c.Pods = append(c.Pods, podSpec{Ordinal: o, IP: ip, Terminating: rapid.IntRange(0, 7).Draw(t, fmt.Sprintf("terminating%d", i)) == 0})
 		}
 		c.Others = rapid.IntRange(0, 2).Draw(t, "others")
 		c.Rolling = rapid.Bool().Draw(t, "rolling")
+		c.OnDelete = c.Rolling && rapid.IntRange(0, 2).Draw(t, "onDelete") == 0
 		c.RollBack = c.Rolling && rapid.IntRange(0, 2).Draw(t, "rollBack") == 0
 		vs := rec.Filter(runList(c))
 		b, _ := json.Marshal(c)
